@@ -35,8 +35,19 @@ for mp in sorted(glob.glob('/verif/seeded/*/meta.json')):
     cell = lambda xs: '<br>'.join(x.replace('|', '\\|') for x in xs) if xs else '—'
     summ = m.get('summary', '').replace('|', '\\|')
     seeds.append('| %s | %s | %s | %s |' % (os.path.basename(os.path.dirname(mp)), summ[:260] + ('…' if len(summ) > 260 else ''), cell(cr.get('caught_by', [])), cell(cr.get('missed_by', []))))
+import re as _re
+mg = collections.defaultdict(list)
+for n in sorted(os.listdir('/verif/selftest/mutants')):
+    m = _re.match(r'^(c|dml_)(\d+)?', n)
+    if n.startswith('seed_') or n.startswith('fix_'):
+        continue
+    k = 'C' + m.group(2) if m and m.group(2) else 'C13/C14 (dml_*)'
+    mg[k].append(n)
+muts = ['| check | one-line code mutants (each makes the check exit 1) |', '|---|---|']
+for k in sorted(mg):
+    muts.append('| %s (%d) | %s |' % (k, len(mg[k]), ', '.join('`%s`' % x for x in mg[k])))
 s = open('/verif/DESIGN.md').read()
-for name, body in (('fixes', fix), ('open', opn), ('seeds', seeds)):
+for name, body in (('fixes', fix), ('open', opn), ('seeds', seeds), ('mutants', muts)):
     a, b = '<!-- gen:%s -->' % name, '<!-- /gen:%s -->' % name
     if a in s:
         s = s[:s.index(a) + len(a)] + '\n' + '\n'.join(body) + '\n' + s[s.index(b):]
